@@ -174,7 +174,9 @@ def site_program(site, payloads):
         elif site == "expr-dim-result":
             # the function result's declaration is shown in the heading of the "Return Value" section and on the module page
             cont += [f"function f{i}() result({n})", f"integer :: {n}({pl})", f"{n} = 0", f"end function f{i}"]
-            checks.append((f"proc/f{i}.html", f"variable-{n}", f"({pl})", "integer"))
+            # shown on the procedure's page and (summary) on the module page: the same text on both
+            checks.append([(f"proc/f{i}.html", f"variable-{n}", f"({pl})", "integer", f"integer, ({pl})"),
+                           ("module/cm.html", f"variable-{n}", f"({pl})", "integer", f"integer, ({pl})")])
         elif site == "expr-dim-arg":
             cont += [f"subroutine s{i}({n})", f"integer, intent(in) :: {n}({pl})", f"end subroutine s{i}"]
             checks.append((f"proc/s{i}.html", f"variable-{n}", f"{n}({pl})", "integer"))
@@ -186,10 +188,12 @@ def site_program(site, payloads):
             checks.append((f"type/t{i}.html", f"variable-{n}", f"{n}({pl})", "integer"))
         elif site == "expr-dimattr-result":
             cont += [f"function f{i}() result({n})", f"integer, dimension({pl}) :: {n}", f"{n} = 0", f"end function f{i}"]
-            checks.append((f"proc/f{i}.html", f"variable-{n}", f"dimension({pl})", "integer"))
+            checks.append([(f"proc/f{i}.html", f"variable-{n}", f"dimension({pl})", "integer", f"integer, dimension({pl})"),
+                           ("module/cm.html", f"variable-{n}", f"dimension({pl})", "integer", f"integer, dimension({pl})")])
         elif site == "expr-kind-result":
             cont += [f"function f{i}() result({n})", f"integer(kind={pl}) :: {n}", f"{n} = 0", f"end function f{i}"]
-            checks.append((f"proc/f{i}.html", f"variable-{n}", f"integer(kind={pl})", "integer"))
+            checks.append([(f"proc/f{i}.html", f"variable-{n}", f"integer(kind={pl})", "integer", f"integer(kind={pl})"),
+                           ("module/cm.html", f"variable-{n}", f"integer(kind={pl})", "integer", f"integer(kind={pl})")])
         elif site == "initial-array2":
             # two literals in one initial value: the second must be shown too
             decl.append(f"character(len=*), parameter :: {n}(2) = [{L}, 'second<i>{i}']")
@@ -234,7 +238,8 @@ def check_batch(st: Stats, site, payloads, neutral_shape):
     if len(payloads) > 1:
         files, checks = site_program(site, payloads)
         r0 = fordrun.build(files, dict(display=["public", "private", "protected"], proc_internals=True, incl_src=False), stage="write")
-        ok = r0.error is None and r0.stage_reached == "write" and "ERROR in file" not in r0.log and "Error parsing" not in r0.log and all((r0.out / c[0]).exists() for c in checks)
+        ok = r0.error is None and r0.stage_reached == "write" and "ERROR in file" not in r0.log and "Error parsing" not in r0.log and all(
+            (r0.out / c[0]).exists() for cs in checks for c in (cs if isinstance(cs, list) else [cs]))
         r0.cleanup()
         if not ok:
             shapes = {}
@@ -253,7 +258,8 @@ def check_batch(st: Stats, site, payloads, neutral_shape):
             st.stratum(stratum, 1)
             return shapes
         doms = {}
-        for (page, anchor, want, *more), pl in zip(checks, payloads):
+        flat = [(c, pl) for cs, pl in zip(checks, payloads) for c in (cs if isinstance(cs, list) else [cs])]
+        for (page, anchor, want, *more), pl in flat:
             st.transitions += 1
             st.nontrivial.add(core.digest([site, pl]))
             inp = dict(site=site, payload=pl, source_line=[l for l in files["src/cm.f90"].split("\n") if (pl in l)][:1])
@@ -297,7 +303,7 @@ def check_batch(st: Stats, site, payloads, neutral_shape):
             shp = shape_of(row)
             shapes[pl] = shp
             bad = 0
-            if squeeze(want) not in squeeze(got_text) or (more and not squeeze(got_text).startswith(more[0])):
+            if squeeze(want) not in squeeze(got_text) or (more and not squeeze(got_text).startswith(more[0])) or (len(more) > 1 and squeeze(got_text) != squeeze(more[1])):
                 bad += 1
                 st.violation("text-differs-from-source", stratum, feats, inp, got_text[:200], want if not more else f"{more[0]} ... {want}")
             if neutral_shape is not None and shp != neutral_shape:
